@@ -82,6 +82,15 @@ spec fn parsed_compact(s: Seq<char>, e: SDJWTCommon) -> bool {
         && e.unverified_input_key_binding_jwt is Some && e.unverified_input_key_binding_jwt->Some_0@ == p.last()
         && split_spec(p[0], "."@).len() >= 2 && payload_json(split_spec(p[0], "."@)[1]) == Some(e.unverified_input_sd_jwt_payload->Some_0@)
 }
+// the `alg` header parameter of a compact JWS, as the parsers read it (None: not decodable / not a string)
+spec fn header_alg_spec(s: Seq<char>) -> Option<Seq<char>> {
+    let p = split_spec(s, "."@);
+    if p.len() < 2 { None } else {
+        match b64dec(p[0]) { Some(b) => match utf8_dec(b) { Some(t) => match json_parse(utf8(t)) {
+            Some(J::Obj(m)) => match j_get(m, "alg"@) { Some(J::Str(a)) => Some(a), _ => None },
+            _ => None }, None => None }, None => None }
+    }
+}
 // the only reasons for which parsing may fail: all of them functions of the input text
 spec fn unparsable_compact(s: Seq<char>) -> bool {
     let p = split_spec(s, "~"@);
